@@ -497,7 +497,7 @@ func (t *Table) fromFloat(f float64) Node {
 
 // FromText parses JSON text ("" or blank = void).
 func (t *Table) FromText(s string) (Node, error) {
-	if strings.TrimSpace(s) == "" {
+	if strings.Trim(s, " \t\r\n") == "" {
 		return Void(), nil
 	}
 	dec := json.NewDecoder(strings.NewReader(s))
@@ -511,7 +511,7 @@ func (t *Table) FromText(s string) (Node, error) {
 
 // ParseStrict parses text that must be exactly one JSON value (like json.Unmarshal).
 func (t *Table) ParseStrict(s string) (Node, bool) {
-	if strings.TrimSpace(s) == "" {
+	if strings.Trim(s, " \t\r\n") == "" {
 		return Void(), true
 	}
 	if !json.Valid([]byte(s)) {
